@@ -294,6 +294,12 @@ def configs(tier):
     add('w6p3-bytewise', 6, 3, sizes=[4], maxwrites=1, bytewise=1, pause=False)
     add('w8p4-writelines', 8, 4, sizes=[9], maxwrites=1, writelines=True, pause=False)
     if tier == 'thorough':
+        for c in cfgs:
+            # the small configurations go deeper (the state cap still applies)
+            if c['name'] in ('w1p1', 'w2p1', 'w6p3-bytewise', 'w8p4-writelines'):
+                c['bfs_depth'] = 7
+            elif c['name'] in ('w16p4', 'w5p3-utf16', 'w4p2-2chan'):
+                c['bfs_depth'] = 6
         add('big', 2 ** 21, 32768, sizes=[1, 32768, 32769, 70000], maxwrites=2,
             maxbytes=300000)
         add('w64p32', 64, 32, sizes=[31, 33, 65, 131])
@@ -304,8 +310,8 @@ def configs(tier):
 
 def main(tier, seed):
     t0 = core.now()
-    depth = 4 if tier == 'quick' else 6
-    max_states = 20000 if tier == 'quick' else 150000
+    depth = 4 if tier == 'quick' else 5
+    max_states = 20000 if tier == 'quick' else 30000
     cfgs = core.rotate(configs(tier), seed)
     acc = core.Acc()
     # determinism self-check: one history executed twice must give one canon
@@ -323,7 +329,7 @@ def main(tier, seed):
             'queued wire packets); from every new state the run is drained and compared '
             'with the FIFO stream model')
     return core.finish(PROP, tier, seed, 'model_checking', acc, t0, rule,
-                       {'depth': depth, 'max_states_per_cfg': max_states,
+                       {'depth': depth, 'deeper': {c['name']: c['bfs_depth'] for c in cfgs if 'bfs_depth' in c}, 'max_states_per_cfg': max_states,
                         'configs': [c['name'] for c in cfgs]},
                        assumptions=['VLoop models asyncio FIFO call_soon semantics',
                                     'one transport.write == one SSH packet'])
